@@ -208,7 +208,7 @@ V('B1_delitem_no_pos_reset', ['C06'], 'bitstream.py', "        self._bitstore.__
 V('B1_prepend_no_pos_reset', ['C06'], 'bitstream.py', "        super().prepend(bs)\n        self._pos = 0", "        super().prepend(bs)", ['B1', 'POST'])
 V('B1_setitem_no_pos_reset', ['C06'], 'bitstream.py', "        super().__setitem__(key, value)\n        if len(self) != length_before:\n            self._pos = 0\n        return", "        super().__setitem__(key, value)\n        return", ['B1', 'POST'])
 V('B1_replace_no_pos_reset', ['C06'], 'bitstream.py', "        if len(self) != length_before:\n            self._pos = 0\n        return replacement_count", "        return replacement_count", ['B1', 'POST'])
-V('B1_setattr_override_removed', ['C06', 'C20'], 'bitstream.py', "            super().__setattr__(attribute, value)\n            if len(self) != length_before:\n                self._pos = 0", "            super().__setattr__(attribute, value)", ['B1'])
+# (B1_setattr_override_removed superseded by B1_property_path_no_pos after the second __setattr__ fix)
 V('B1_new_mutator_on_bitarray', ['C06'], 'bitarray_.py', "    def clear(self) -> None:\n        \"\"\"Remove all bits, reset to zero length.\"\"\"",
   "    def truncate(self, n: int) -> None:\n        if n < 0:\n            raise ValueError\n        n = min(n, len(self))\n        self._truncateright(n)\n\n    def clear(self) -> None:\n        \"\"\"Remove all bits, reset to zero length.\"\"\"", ['B1'])
 V('RB_read_no_rollback', ['C06'], 'bitstream.py', "            self._pos = p\n            raise bitstring.ReadError(f\"Reading off end", "            raise bitstring.ReadError(f\"Reading off end", ['RB', 'POSW'])
@@ -396,3 +396,7 @@ S('PK_S_rename_value_iter', ['C05'], 'methods.py', fn=rename_local('value_iter',
 V('N5_literal_funcs_unguarded', ['C20'], 'bitstore_helpers.py', "    if name in literal_bit_funcs:\n        return literal_bit_funcs[name](value)", "    if name.startswith('0'):\n        return literal_bit_funcs[name](value)", ['N5'])
 V('N5_register_no_handler', ['C20'], 'dtypes.py', "        try:\n            definition = cls.names[name]\n        except KeyError:\n            raise ValueError(f\"Unknown Dtype name '{name}'. Names available: {list(cls.names.keys())}.\")\n        else:\n            return definition.get_dtype(length, scale)", "        definition = cls.names[name]\n        return definition.get_dtype(length, scale)", ['N5'])
 V('N5_new_table_lookup', ['C20'], 'bits.py', "                bits_per_group = {'bin': 8, 'hex': 8, 'oct': 12, 'bytes': 32}.get(dtype1.name)", "                bits_per_group = {'bin': 8, 'hex': 8, 'oct': 12, 'bytes': 32}[dtype1.name]", ['N5'])
+V('NOMOVE_ror_public_mutators', ['C06'], 'bitarray_.py', "        rhs = self._slice(end - bits, end)\n        self._delete(bits, end - bits)\n        self._insert(rhs, start)", "        rhs = self._slice(end - bits, end)\n        del self[end - bits:end]\n        self.insert(rhs, start)", ['NOMOVE'])
+V('NOMOVE_count_seeks', ['C06'], 'bitstream.py', "    def __repr__(self) -> str:\n", "    def count(self, value: Any) -> int:\n        self._setbitpos(0)\n        return super().count(value)\n\n    def __repr__(self) -> str:\n", ['NOMOVE'])
+V('B1_property_path_no_pos', ['C06', 'C20'], 'bitstream.py', "        length_before = len(self)\n        super().__setattr__(attribute, value)\n        if len(self) != length_before:\n            self._pos = 0\n\n    def __setitem__", "        super().__setattr__(attribute, value)\n\n    def __setitem__", ['B1'])
+V('N1_generator_option_assert', ['C20', 'C12'], 'bits.py', "                      bytealigned: bool) -> Iterable[int]:\n        assert start <= end\n\n        new_slice", "                      bytealigned: bool) -> Iterable[int]:\n        assert start <= end\n        assert bitstring.options.lsb0\n\n        new_slice", ['N1'])
